@@ -1,7 +1,7 @@
 import QR.Model.QRObject
 import QR.Proofs.Except
 import QR.Proofs.History
-import QR.Proofs.SourceTie
+import QR.Proofs.SourceTieC18
 import QR.Proofs.Pinned
 /-
 C18 - out-of-range settings are rejected, in-range settings accepted (all integers), and nothing is produced under an
